@@ -25,8 +25,13 @@ func main() {
 	lean := flag.String("lean", "", "path of the compiled Lean model driver")
 	proof := flag.String("proof-info", "", "JSON file describing the proof build (written by ./check)")
 	list := flag.Bool("list", false, "list registered properties")
+	serve := flag.String("serve", "", "internal: run a switch accessory on this storage directory in this process, print its port, serve until stdin closes")
 	flag.Parse()
 
+	if *serve != "" {
+		serveAccessory(*serve)
+		return
+	}
 	if *list {
 		var ids []string
 		for k := range registry {
@@ -92,6 +97,21 @@ func main() {
 	} else if os.Getenv("HC_LOG") == "2" {
 		hclog.Debug.Enable()
 	}
+	// watchdog: a check that does not come back (the code under test wedged the harness) is a finding, not a hang
+	limit := 15 * time.Minute
+	if c.Thorough() {
+		limit = 90 * time.Minute
+	}
+	go func() {
+		time.Sleep(limit)
+		rp := filepath.Join(c.VerifDir, "replays", fmt.Sprintf("%s-%d-broken-obligation.json", c.Prop, c.Seed))
+		os.MkdirAll(filepath.Dir(rp), 0755)
+		b, _ := json.Marshal(map[string]interface{}{"property": c.Prop, "kind": "broken-obligation", "seed": c.Seed, "tier": c.Tier,
+			"theorem_or_stream": fmt.Sprintf("the correspondence run did not finish within %v (the code under test blocks)", limit)})
+		ioutil.WriteFile(rp, b, 0644)
+		fmt.Printf("VIOLATION property=%s replay=%s no-failing-input-found\n", c.Prop, rp)
+		os.Exit(1)
+	}()
 	fn(c)
 	code := c.finish(pi)
 	cleanup()
